@@ -1,10 +1,10 @@
 SPECIFICATION Spec
 CONSTANTS
-  K = 60
-  KB = 16
+  K = 32
+  KB = 8
   C2Pos = {3}
   C2Neg = {7}
-  KM = 12
+  KM = 8
   ScalPos = {0, 1, 2, 1000}
   ScalNeg = {1, 7}
 INVARIANTS EmitInv Laws
